@@ -6,6 +6,7 @@ import (
 	"fmt"
 	"io"
 	"sort"
+	"strings"
 	"testing"
 
 	"github.com/parquet-go/parquet-go"
@@ -27,26 +28,29 @@ type Seg struct {
 }
 
 type Input struct {
-	Segs    []Seg `json:"segs"`
+	Segs    []Seg  `json:"segs"`
 	Kind    string `json:"kind"` // "file" | "buffer"
-	PageBuf int   `json:"pagebuf"`
-	Chunk   int   `json:"chunk"` // ReadRows chunking for the row-reader path
+	PageBuf int    `json:"pagebuf"`
+	Chunk   int    `json:"chunk"`          // ReadRows chunking for the row-reader path
+	Perm    bool   `json:"perm,omitempty"` // the input declares its fields in reverse order (the merge converts it to the merged schema)
 }
 
 type Case struct {
-	Inputs  []Input `json:"inputs"`
-	Seed    uint64  `json:"seed"`
-	Desc1   bool    `json:"desc1"`
-	Desc2   bool    `json:"desc2"`
-	Opt2    bool    `json:"opt2"`
-	NF2     bool    `json:"nullsfirst2"`
-	TwoKeys bool    `json:"twokeys"`
-	K2Range int     `json:"k2range"`
-	Dedup   bool    `json:"dedup"`
-	Path    string  `json:"path"` // "rows" | "write" | "readers"
-	Batch   int     `json:"batch"`
-	MaxRows int     `json:"maxrows"`
-	StrKey  bool    `json:"strkey"` // first key is a string instead of int64
+	Inputs   []Input `json:"inputs"`
+	Seed     uint64  `json:"seed"`
+	Desc1    bool    `json:"desc1"`
+	Desc2    bool    `json:"desc2"`
+	Opt2     bool    `json:"opt2"`
+	NF2      bool    `json:"nullsfirst2"`
+	TwoKeys  bool    `json:"twokeys"`
+	K2Range  int     `json:"k2range"`
+	Dedup    bool    `json:"dedup"`
+	Path     string  `json:"path"` // "rows" | "write" | "readers"
+	Batch    int     `json:"batch"`
+	MaxRows  int     `json:"maxrows"`
+	StrKey   bool    `json:"strkey"`             // first key is a string instead of int64
+	NoSchema bool    `json:"noschema,omitempty"` // MergeRowGroups derives the schema from the inputs (MergeNodes) instead of being given one
+	Layout   int     `json:"layout,omitempty"`   // position of an extra repeated column "m": 0 none, 1 between the keys, 2 before them, 3 after them
 }
 
 func genCase(t *rapid.T) Case {
@@ -120,6 +124,13 @@ func genCase(t *rapid.T) Case {
 	c.Batch = []int{1, 2, 23, 24, 25, 191, 192, 193, 1000}[rapid.IntRange(0, 8).Draw(t, "batch")]
 	c.MaxRows = []int{0, 0, 100, 1000}[rapid.IntRange(0, 3).Draw(t, "maxrows")]
 	c.StrKey = rapid.IntRange(0, 3).Draw(t, "strkey") == 0
+	c.Layout = []int{0, 0, 0, 1, 1, 2, 3}[rapid.IntRange(0, 6).Draw(t, "layout")]
+	c.NoSchema = rapid.IntRange(0, 4).Draw(t, "noschema") == 0
+	if rapid.IntRange(0, 3).Draw(t, "perm") == 0 {
+		for i := range c.Inputs {
+			c.Inputs[i].Perm = rapid.Bool().Draw(t, "permi")
+		}
+	}
 	return c
 }
 
@@ -140,11 +151,53 @@ func (c Case) schema() ref.Node {
 	if c.StrKey {
 		k1 = "string"
 	}
-	return ref.Node{Name: "root", Rep: "req", Kind: "group", Children: []ref.Node{
-		{Name: "c0", Rep: "req", Kind: "leaf", Leaf: "int64"},
-		{Name: "c1", Rep: "req", Kind: "leaf", Leaf: k1},
-		{Name: "c2", Rep: rep2, Kind: "leaf", Leaf: "int32"},
-	}}
+	c0 := ref.Node{Name: "c0", Rep: "req", Kind: "leaf", Leaf: "int64"}
+	c1 := ref.Node{Name: "c1", Rep: "req", Kind: "leaf", Leaf: k1}
+	c2 := ref.Node{Name: "c2", Rep: rep2, Kind: "leaf", Leaf: "int32"}
+	m := ref.Node{Name: "m", Rep: "rep", Kind: "leaf", Leaf: "int64"}
+	root := ref.Node{Name: "root", Rep: "req", Kind: "group"}
+	switch c.Layout {
+	case 1:
+		root.Children = []ref.Node{c0, c1, m, c2}
+	case 2:
+		root.Children = []ref.Node{c0, m, c1, c2}
+	case 3:
+		root.Children = []ref.Node{c0, c1, c2, m}
+	default:
+		root.Children = []ref.Node{c0, c1, c2}
+	}
+	return root
+}
+
+// fields orders the values of one row like the layout's schema.
+func (c Case) fields(tag, k1, k2, m ref.V) []ref.V {
+	switch c.Layout {
+	case 1:
+		return []ref.V{tag, k1, m, k2}
+	case 2:
+		return []ref.V{tag, m, k1, k2}
+	case 3:
+		return []ref.V{tag, k1, k2, m}
+	}
+	return []ref.V{tag, k1, k2}
+}
+
+// reversed returns the schema / row with the top-level fields in reverse order.
+func reversed(n ref.Node) ref.Node {
+	out := n
+	out.Children = nil
+	for i := len(n.Children) - 1; i >= 0; i-- {
+		out.Children = append(out.Children, n.Children[i])
+	}
+	return out
+}
+
+func reversedRow(v ref.V) ref.V {
+	out := ref.V{}
+	for i := len(v.F) - 1; i >= 0; i-- {
+		out.F = append(out.F, v.F[i])
+	}
+	return out
 }
 
 func (c Case) cmp(a, b *mrow) int {
@@ -229,7 +282,13 @@ func (c Case) build() [][]mrow {
 			if rows[i].k2null {
 				k2 = ref.V{Null: true}
 			}
-			rows[i].v = ref.V{F: []ref.V{{I: int64(si)*10000000 + int64(i)}, k1, k2}}
+			// the repeated column holds 0, 2, 3 or 1 values (a single value hides index-based comparisons)
+			h := (rows[i].k1*31 + rows[i].k2*17 + int64(i)) & 0xffff
+			var mv ref.V
+			for e := int64(0); e < []int64{0, 2, 3, 1}[h%4]; e++ {
+				mv.L = append(mv.L, ref.V{I: (h*7919 + e*104729) % 1000})
+			}
+			rows[i].v = ref.V{F: c.fields(ref.V{I: int64(si)*10000000 + int64(i)}, k1, k2, mv)}
 		}
 		out[si] = rows
 	}
@@ -282,6 +341,7 @@ func runCase(c Case, o *kit.Obs) *kit.Failure {
 	total := 0
 	var rgs []parquet.RowGroup
 	var readers []parquet.RowReader
+	permuted := false
 	for si, rows := range inputs {
 		total += len(rows)
 		vs := make([]ref.V, len(rows))
@@ -289,12 +349,22 @@ func runCase(c Case, o *kit.Obs) *kit.Failure {
 			vs[i] = rows[i].v
 		}
 		prows := pq.Rows(&root, cols, vs)
+		inSchema := schema
+		if c.Inputs[si].Perm && c.Path != "readers" {
+			rootIn := reversed(root)
+			for i := range vs {
+				vs[i] = reversedRow(vs[i])
+			}
+			prows = pq.Rows(&rootIn, ref.Columns(&rootIn), vs)
+			inSchema = pq.BuildSchema(&rootIn)
+			permuted = true
+		}
 		if c.Path == "readers" {
 			readers = append(readers, &chunked{rows: prows, chunk: c.Inputs[si].Chunk})
 			continue
 		}
 		if c.Inputs[si].Kind == "buffer" {
-			b := parquet.NewBuffer(schema, parquet.SortingRowGroupConfig(parquet.SortingColumns(sc...)))
+			b := parquet.NewBuffer(inSchema, parquet.SortingRowGroupConfig(parquet.SortingColumns(sc...)))
 			if _, err := b.WriteRows(prows); err != nil {
 				o.Rejected()
 				return nil
@@ -303,7 +373,7 @@ func runCase(c Case, o *kit.Obs) *kit.Failure {
 			continue
 		}
 		var buf bytes.Buffer
-		wo := []parquet.WriterOption{schema, parquet.SortingWriterConfig(parquet.SortingColumns(sc...))}
+		wo := []parquet.WriterOption{inSchema, parquet.SortingWriterConfig(parquet.SortingColumns(sc...))}
 		if c.Inputs[si].PageBuf > 0 {
 			wo = append(wo, parquet.PageBufferSize(c.Inputs[si].PageBuf))
 		}
@@ -323,6 +393,7 @@ func runCase(c Case, o *kit.Obs) *kit.Failure {
 		rgs = append(rgs, f.RowGroups()...)
 	}
 	var got []parquet.Row
+	outSchema := schema
 	switch c.Path {
 	case "readers":
 		mr := parquet.MergeRowReaders(readers, schema.Comparator(sc...))
@@ -332,10 +403,15 @@ func runCase(c Case, o *kit.Obs) *kit.Failure {
 		}
 		got = rows
 	default:
-		merged, err := parquet.MergeRowGroups(rgs, schema, parquet.SortingRowGroupConfig(parquet.SortingColumns(sc...), parquet.DropDuplicatedRows(c.Dedup)))
+		mopts := []parquet.RowGroupOption{schema, parquet.SortingRowGroupConfig(parquet.SortingColumns(sc...), parquet.DropDuplicatedRows(c.Dedup))}
+		if c.NoSchema && len(rgs) > 0 {
+			mopts = mopts[1:]
+		}
+		merged, err := parquet.MergeRowGroups(rgs, mopts...)
 		if err != nil {
 			return kit.Failf("c09/merge-error"+feat, "MergeRowGroups of %d sorted row groups: %v", len(rgs), err)
 		}
+		outSchema = merged.Schema()
 		if c.Path == "rows" {
 			r := merged.Rows()
 			rows, err := pq.ReadAllRows(r, c.Batch)
@@ -346,7 +422,7 @@ func runCase(c Case, o *kit.Obs) *kit.Failure {
 			got = rows
 		} else {
 			var out bytes.Buffer
-			wo := []parquet.WriterOption{schema}
+			wo := []parquet.WriterOption{outSchema}
 			if c.MaxRows > 0 {
 				wo = append(wo, parquet.MaxRowsPerRowGroup(int64(c.MaxRows)))
 			}
@@ -374,6 +450,30 @@ func runCase(c Case, o *kit.Obs) *kit.Failure {
 				got = append(got, rows...)
 			}
 		}
+	}
+	// the derived schema may order the fields differently: address the values by column path
+	if outSchema != schema {
+		mapping := map[int]int{}
+		for j, p := range outSchema.Columns() {
+			found := false
+			for i := range cols {
+				if strings.Join(cols[i].Path, "\x00") == strings.Join(p, "\x00") {
+					mapping[j], found = i, true
+				}
+			}
+			if !found {
+				return kit.Failf("c09/derived-schema"+feat, "the merged schema has a column %v that no input has", p)
+			}
+		}
+		if len(mapping) != len(cols) {
+			return kit.Failf("c09/derived-schema"+feat, "the merged schema has %d columns, the inputs %d", len(mapping), len(cols))
+		}
+		for _, row := range got {
+			for k, v := range row {
+				row[k] = v.Level(v.RepetitionLevel(), v.DefinitionLevel(), mapping[v.Column()])
+			}
+		}
+		o.Class("derived-schema")
 	}
 	// oracle
 	dedup := c.Dedup && c.Path != "readers"
@@ -464,6 +564,8 @@ func runCase(c Case, o *kit.Obs) *kit.Failure {
 	o.ClassIf(dedup, "dedup")
 	o.ClassIf(overlap, "overlapping-inputs")
 	o.ClassIf(total >= 2048, "big")
+	o.Class(fmt.Sprintf("layout-%d", c.Layout))
+	o.ClassIf(permuted, "input-with-reordered-fields")
 	if nonEmpty >= 2 && overlap && (c.Batch < total || c.Opt2 || c.TwoKeys) {
 		o.NonTrivial()
 	}
@@ -476,6 +578,7 @@ var spec = &kit.Spec[Case]{
 	Rule: "0-5 inputs, each the stable sort of 0-3 arithmetic key stretches (start in {-50..2500}, length 1..193 or, in a quarter of the cases, 1023..2600 so lone stretches ≥1024 rows and range refinement occur; step 0/1/2/10; 1-50 duplicates per key), " +
 		"first key int64 or string, optional second key (int32, asc/desc, nullable with nulls first/last, 1-200 distinct values), payload = (input, position) tag; inputs are file row groups with declared sorting columns and page buffers 64 B..default, or sorted Buffers; " +
 		"merged with MergeRowGroups (with/without DropDuplicatedRows) and read with batch sizes {1,2,23,24,25,191,192,193,1000} or written with WriteRowGroup (MaxRowsPerRowGroup 0/100/1000), or merged as chunked RowReaders with MergeRowReaders + Schema.Comparator. " +
+		"The schema is (tag, key1, key2) with, in half of the cases, a repeated int64 column holding 0/2/3/1 values placed between the keys, before them or after them; in a quarter of the cases some inputs declare their fields in reverse order (the merge converts them), and in a fifth MergeRowGroups derives the schema from the inputs instead of being given one (values then addressed by column path). " +
 		"Oracle: output = multiset union (tags), rows intact, globally sorted under the reference comparator, each input's rows in increasing position, one row per key with dedup. Three aimed templates (an input inside a key gap of another with ≥1024 rows on both sides and page-aligned or not; touching / barely overlapping long inputs; a short input nested in a long one) are mixed with the random inputs. Non-trivial = ≥2 non-empty inputs with overlapping key ranges and (batch < total rows, or nullable / two keys).",
 	Assumptions: []string{"ties across inputs may interleave in any order; only per-input order is asserted", "no NaN keys (integer and string keys only)"},
 	Gen:         genCase,
